@@ -7,16 +7,16 @@ PROPS = {
     'C01': ['DISPATCH', 'ACDUAL', 'ORDTOTAL', 'FRAMERESET', 'MERGE'],
     'C02': ['UNIONCONTRIB', 'PRODUCT', 'WORKLIST', 'COW'],
     'C03': ['SIZEEQ', 'WORKLIST', 'COW'],
-    'C04': ['KIND', 'SIMMAP'],
+    'C04': ['KIND', 'SIMMAP', 'COPYALL'],
     'C05': ['SIMMAP', 'KIND', 'COW'],
-    'C07': ['DISPATCH', 'ACDUAL', 'MERGE'],
-    'C08': ['UNIONCONTRIB', 'PRODUCT', 'WORKLIST', 'INIT'],
+    'C07': ['DISPATCH', 'ACDUAL', 'MERGE', 'PARALLEL', 'COLLECTALL'],
+    'C08': ['UNIONCONTRIB', 'PRODUCT', 'WORKLIST', 'INIT', 'COLLECTALL'],
     'C09': ['DISPATCH', 'ACDUAL', 'MEMO', 'HASHEQ', 'ORDTOTAL'],
     'C10': ['UNIONCONTRIB', 'PRODUCT', 'PAIRFIELD', 'FINCHK', 'WORKLIST', 'COW'],
     'C11': ['COW'],
     'C14': ['KIND', 'COW'],
     'C19': ['KIND', 'SIMMAP', 'DISPATCH'],
-    'C20': ['INIT', 'FALLOFF', 'PAIRFIELD'],
+    'C20': ['INIT', 'FALLOFF', 'PAIRFIELD', 'COPYALL', 'FRAMERESET'],
 }
 
 # (property, rule) -> regex on the repo-relative file: only sites in matching files are attributed to that
@@ -28,6 +28,7 @@ FILTER = {
     ('C01', 'MERGE'): r'explicit_tree|antichain',
     ('C07', 'DISPATCH'): r'bdd_|aut_base\.hh',
     ('C07', 'ACDUAL'): r'up_tree_incl_fctor|down_tree_|tree_incl_|antichain',
+    ('C07', 'COLLECTALL'): r'bdd_|tree_incl', ('C08', 'COLLECTALL'): r'bdd_',
     ('C07', 'MERGE'): r'tree_incl_up\.hh|antichain',
     ('C09', 'DISPATCH'): r'explicit_finite|aut_base\.hh',
     ('C09', 'ACDUAL'): r'explicit_finite|antichain',
